@@ -55,6 +55,7 @@ CONSTANTS Sw,        \* switch numbers, ordered like their datapath ids
           P, W,      \* timer period and waiting period (send_cycle_time / 4), in time units
           Strict,    \* see above
           PortOps,   \* subset of {"add", "del", "down", "up"}
+          OpPorts,   \* the <<switch, port>> pairs on which port events are explored
           Fresh,     \* {FALSE} or {FALSE, TRUE}: may a switch reconnect rebooted (default port config)?
           MaxChan,   \* model-checking bound on batches in flight per switch
           D          \* export depth
@@ -73,6 +74,8 @@ evars == <<conn, sports, down, swcfg, chan>>
 cvars == <<sws, age, cache, known, fwd, rev, tree>>
 vars  == <<conn, sports, down, swcfg, chan, sws, age, cache, known, fwd, rev, tree, tphase, calm, stale, last, hist>>
 view  == <<conn, sports, down, swcfg, chan, sws, age, cache, known, fwd, rev, tree, tphase, calm, stale>>
+\* for the edge-cover export: calm and stale only feed the properties, no action reads them
+viewE == <<conn, sports, down, swcfg, chan, sws, age, cache, known, fwd, rev, tree, tphase>>
 
 ----------------------------------------------------------------------------
 (* links and graphs: switches are nodes, links are edges *)
@@ -204,7 +207,7 @@ LinkEv(add, l, dir) ==
 Ext(f, p, v) == [q \in DOMAIN f \cup {p} |-> IF q = p THEN v ELSE f[q]]
 Cut(f, p)    == [q \in DOMAIN f \ {p} |-> f[q]]
 PortEv(s, p, k) ==
-  /\ tphase < P /\ k \in PortOps
+  /\ tphase < P /\ k \in PortOps /\ <<s, p>> \in OpPorts
   /\ CASE k = "add"  -> p \notin sports[s] /\ (s \in conn => p \notin DOMAIN cache[s].m)
        [] k = "del"  -> p \in sports[s]
        [] k = "down" -> p \in sports[s] \ down[s]
